@@ -1,4 +1,128 @@
-import EphVerif.Model.Manifest
+import EphVerif.Lemmas.C17Base64
+import EphVerif.Lemmas.C17Sections
+
+/-!
+C17 — manifests round-trip, and unrepresentable manifests are refused.
+
+Property theorems about the model `EphVerif.Manifest` (Model/Manifest.lean) of
+`src/protocol/Manifest.cpp`, against the specification vocabulary of Spec/Manifest.lean
+(`WF`, `Encodable`, `normalise`).  No bound on list or string sizes anywhere.
+-/
 namespace EphVerif.C17
-theorem stub : True := trivial
+open EphVerif.Manifest EphVerif.Gen.C17
+
+/-- generated-constant obligation: the URI prefix the property names, and format version 4.
+    (The base64 alphabet is deliberately *not* pinned: the lemmas `decVal_alphaAt`,
+    `alphaAt_ne_pad` re-check, for whatever 64 entries the source holds, that the decode table
+    inverts the alphabet and that no entry is `=`, which is all the round trip needs.) -/
+theorem format_constants :
+    kManifestVersion = 4 ∧ kScheme = "eph://".toList.map (fun c => UInt8.ofNat c.toNat) := by
+  decide
+
+/-- generated-constant obligation: each of the eleven length tests of the encoder refuses exactly
+    above the property's literal limit of its field (255 for counts and 8-bit lengths, 65535 for
+    16-bit lengths) -/
+theorem limit_tests (n : Nat) :
+    (refuseShardCount n = decide (n > 255)) ∧ (refuseMetadataCount n = decide (n > 255)) ∧
+    (refuseMetadataKey n = decide (n > 255)) ∧ (refuseMetadataValue n = decide (n > 65535)) ∧
+    (refuseDiscoveryCount n = decide (n > 255)) ∧ (refuseDiscoveryScheme n = decide (n > 255)) ∧
+    (refuseDiscoveryTransport n = decide (n > 255)) ∧ (refuseDiscoveryEndpoint n = decide (n > 65535)) ∧
+    (refuseFallbackCount n = decide (n > 255)) ∧ (refuseFallbackUri n = decide (n > 65535)) ∧
+    (refuseAdvisory n = decide (n > 65535)) :=
+  ⟨rfl, rfl, rfl, rfl, rfl, rfl, rfl, rfl, rfl, rfl, rfl⟩
+
+/-- `base64_decode (base64_encode bytes) = bytes`, for every byte string -/
+theorem b64_roundtrip (bs : Bytes) : b64Decode (b64Encode bs) = .ok bs := b64Decode_encode bs
+
+/-- the binary payload of a representable manifest parses back to its normal form -/
+theorem payload_roundtrip (m : Manifest) (hwf : WF m) (henc : Encodable m) :
+    decodePayload (payload m) = .ok (normalise m) := by
+  obtain ⟨hsh, hmd, hmde, hdc, hdce, hfb, hfbe, hadv⟩ := henc
+  have hv1 : (u8 kManifestVersion == 1) = false := by decide
+  have hv2 : (u8 kManifestVersion == 2) = false := by decide
+  have hv4 : decide ((u8 kManifestVersion).toNat ≥ 4) = true := by decide
+  simp only [decodePayload, payload, encShardSection, encMetadataSection, encDiscoverySection, encFallbackSection,
+    List.cons_append, readHeader_append m hwf, Res.bind_ok, u8_toNat hsh,
+    readShardSection_append m.shards hwf.shards, hv1, hv2, hv4, Bool.false_eq_true, if_false,
+    readMetaSection_append m.metadata hmd hmde hwf.metadata,
+    readDiscSection_append m.discovery hdc hdce,
+    readSecurity_append m.security hadv hwf.digest]
+  have := readFallbackSection_append m.fallback hfb hfbe []
+  simp only [List.append_nil] at this
+  simp only [this, Res.bind_ok, baseManifest, normalise, wholeSeconds, nsPerSecond]
+
+/-- **C17, first clause.**  For every manifest value of the C++ type that the encoder's tests
+    accept, the encoder produces a URI and decoding that URI yields the same manifest up to
+    whole-second expiry, an empty discovery scheme being reported as its transport (and a digest
+    that is not flagged being reported as zeros). -/
+theorem roundtrip (m : Manifest) (hwf : WF m) (henc : Encodable m) :
+    ∃ uri, encodeManifest m = .ok uri ∧ decodeManifest uri = .ok (normalise m) := by
+  refine ⟨kScheme ++ b64Encode (payload m), ?_, ?_⟩
+  · simp [encodeManifest, (encodeChecks_iff m).mpr henc]
+  · have hp : (!kScheme.isPrefixOf (kScheme ++ b64Encode (payload m))) = false := by
+      simp [List.isPrefixOf_iff_prefix]
+    simp only [decodeManifest, hp, Bool.false_eq_true, if_false, List.drop_left, b64Decode_encode, Res.bind_ok,
+      payload_roundtrip m hwf henc]
+
+/-- **C17, second clause.**  A manifest with a field the format cannot represent (more than 255
+    entries in a counted list, shards included, or a string beyond its 8/16-bit length field) is
+    answered with `length_error`: no URI is produced. -/
+theorem refuse (m : Manifest) (h : ¬ Encodable m) : encodeManifest m = .lengthError := by
+  have : encodeChecks m = false := by
+    cases hc : encodeChecks m
+    · rfl
+    · exact absurd ((encodeChecks_iff m).mp hc) h
+  simp [encodeManifest, this]
+
+/-- the encoder accepts exactly the representable manifests -/
+theorem accepts_iff (m : Manifest) : (∃ uri, encodeManifest m = .ok uri) ↔ Encodable m := by
+  constructor
+  · rintro ⟨uri, h⟩
+    refine Classical.byContradiction fun hn => ?_
+    rw [refuse m hn] at h
+    cases h
+  · intro h
+    exact ⟨kScheme ++ b64Encode (payload m), by simp [encodeManifest, (encodeChecks_iff m).mpr h]⟩
+
+/-! ### non-vacuity and the boundaries 255/256 and 65535/65536 -/
+
+/-- a well-formed manifest; `n` shards, one metadata value of `v` bytes, one transport of `t` bytes -/
+def sample (n v t : Nat) : Manifest :=
+  { chunkId := List.replicate 32 1, chunkHash := List.replicate 32 2, nonce := List.replicate 12 3,
+    threshold := 2, totalShares := 3, expiresNs := -1500000000,
+    shards := List.replicate n ⟨7, List.replicate 32 9⟩,
+    metadata := [([97], List.replicate v 120), ([98], [])],
+    discovery := [⟨[], List.replicate t 116, [49], 5⟩],
+    security := ⟨[104, 105], List.replicate 32 4, false, 6⟩,
+    fallback := [⟨[104], 1⟩] }
+
+theorem sample_wf (n v t : Nat) : WF (sample n v t) := by
+  constructor <;> simp [sample, bytesLt]
+
+theorem sample_encodable_iff (n v t : Nat) : Encodable (sample n v t) ↔ n ≤ 255 ∧ v ≤ 65535 ∧ t ≤ 255 := by
+  simp [Encodable, sample, reportedScheme]
+
+example : Encodable (sample 255 65535 255) := (sample_encodable_iff _ _ _).mpr (by omega)
+example : ¬ Encodable (sample 256 0 0) := fun h => by have := (sample_encodable_iff _ _ _).mp h; omega
+example : ¬ Encodable (sample 0 65536 0) := fun h => by have := (sample_encodable_iff _ _ _).mp h; omega
+example : ¬ Encodable (sample 0 0 256) := fun h => by have := (sample_encodable_iff _ _ _).mp h; omega
+
+/-- the hypotheses of `roundtrip` are met at the upper boundary of every kind of field … -/
+example : ∃ uri, encodeManifest (sample 255 65535 255) = .ok uri ∧
+    decodeManifest uri = .ok (normalise (sample 255 65535 255)) :=
+  roundtrip _ (sample_wf _ _ _) ((sample_encodable_iff _ _ _).mpr (by omega))
+
+/-- … and one past it the encoder refuses (300 shards were encoded as 44 before the repair) -/
+example : encodeManifest (sample 256 0 0) = .lengthError :=
+  refuse _ fun h => by have := (sample_encodable_iff _ _ _).mp h; omega
+example : encodeManifest (sample 300 0 0) = .lengthError :=
+  refuse _ fun h => by have := (sample_encodable_iff _ _ _).mp h; omega
+example : encodeManifest (sample 0 65536 0) = .lengthError :=
+  refuse _ fun h => by have := (sample_encodable_iff _ _ _).mp h; omega
+
+/-- the normal form is not the identity: sub-second expiry is cut toward the epoch and the empty
+    scheme becomes the transport -/
+example : (normalise (sample 1 1 1)).expiresNs = -1000000000 ∧
+    (normalise (sample 1 1 1)).discovery.map (·.scheme) = [[116]] := by decide
+
 end EphVerif.C17
